@@ -298,6 +298,27 @@ func Policy(t *rapid.T, arch string, o Opts) spec.Policy {
 					nc = rapid.IntRange(6, max).Draw(t, "conds")
 				}
 				ce := spec.CondEntry{Name: name}
+				if l > 0 && rapid.IntRange(0, 3).Draw(t, "nearDuplicate") == 0 {
+					// the previous list of this syscall again, with exactly one field of one condition changed: lists that
+					// look alike are different rules
+					prev := entries[len(entries)-1]
+					ce.Conds = append([]spec.Cond(nil), prev.Conds...)
+					k := rapid.IntRange(0, len(ce.Conds)-1).Draw(t, "dupCond")
+					switch rapid.IntRange(0, 2).Draw(t, "dupField") {
+					case 0:
+						ce.Conds[k].Arg = (ce.Conds[k].Arg + uint32(rapid.IntRange(1, 5).Draw(t, "dupArg"))) % 6
+					case 1:
+						ce.Conds[k].Op = spec.Ops[(indexOfOp(ce.Conds[k].Op)+rapid.IntRange(1, 7).Draw(t, "dupOp"))%8]
+					default:
+						ce.Conds[k].Val = ce.Conds[k].Val<<32 | ce.Conds[k].Val>>32
+						if ce.Conds[k].Val == prev.Conds[k].Val {
+							ce.Conds[k].Val ^= 1 << 32
+						}
+						operands = append(operands, ce.Conds[k].Val)
+					}
+					entries = append(entries, ce)
+					continue
+				}
 				for c := 0; c < nc; c++ {
 					v := operand()
 					operands = append(operands, v)
@@ -348,4 +369,13 @@ func min(a, b int) int {
 		return a
 	}
 	return b
+}
+
+func indexOfOp(op string) int {
+	for i, o := range spec.Ops {
+		if o == op {
+			return i
+		}
+	}
+	return 0
 }
